@@ -93,6 +93,9 @@ def _judge(w, text, must_reject=False):
         return 'viol', 'rule-breaker-accepted', ''
     w.reset()
     res = w.run_program(prog, cap=2000, machine=job._machine)
+    if res.raised and '_TooLong' in res.raised:
+        # the compiler finished; the run is long because of the script's own arithmetic (e.g. 120 ^ 30 ^ 30 ...)
+        return 'accept', 'script-error:run-exceeded-time-limit', None
     if res.raised:
         return 'viol', 'vm-raises:' + res.raised.split(':')[0], res.raised
     if res.abort:
